@@ -44,12 +44,12 @@ theorem nodeHash_eq (L : Laws X.A) (d : Digest X.A) (cfg root : Bytes)
 
 /-! ### Write after Read panics; EOF exactly when nothing remains; byte accounting -/
 
-theorem fullNodes_fields (k : Nat) : ∀ (x : Xof X) (acc : Bytes),
-    (fullNodes X k x acc).1.readMode = x.readMode ∧
-    (fullNodes X k x acc).1.remaining = x.remaining - k * X.size ∧
-    (fullNodes X k x acc).1.offset = x.offset ∧
-    (fullNodes X k x acc).1.length = x.length ∧
-    (fullNodes X k x acc).1.root = x.root := by
+theorem fullNodes_fields (keep : Bool) (k : Nat) : ∀ (x : Xof X) (acc : Bytes),
+    (fullNodes X keep k x acc).1.readMode = x.readMode ∧
+    (fullNodes X keep k x acc).1.remaining = x.remaining - k * X.size ∧
+    (fullNodes X keep k x acc).1.offset = x.offset ∧
+    (fullNodes X keep k x acc).1.length = x.length ∧
+    (fullNodes X keep k x acc).1.root = x.root := by
   induction k with
   | zero => intro x acc; simp [fullNodes]
   | succ k ih =>
@@ -60,17 +60,17 @@ theorem fullNodes_fields (k : Nat) : ∀ (x : Xof X) (acc : Bytes),
                d := (nodeHash X x.d (setBytes x.cfg 8 (le32n x.nodeOffset)) x.root).1,
                block := (nodeHash X x.d (setBytes x.cfg 8 (le32n x.nodeOffset)) x.root).2,
                remaining := x.remaining - X.size }
-      (acc ++ (nodeHash X x.d (setBytes x.cfg 8 (le32n x.nodeOffset)) x.root).2)
+      (if keep then acc ++ (nodeHash X x.d (setBytes x.cfg 8 (le32n x.nodeOffset)) x.root).2 else acc)
     refine ⟨h1, ?_, h3, h4, h5⟩
     rw [h2, Nat.succ_mul]
     simp only []
     omega
 
-theorem readNodes_fields (x : Xof X) (n : Nat) (acc : Bytes) :
-    (x.readNodes n acc).1.readMode = x.readMode ∧
-    (x.readNodes n acc).1.remaining = x.remaining - n ∧
-    (x.readNodes n acc).1.length = x.length ∧ (x.readNodes n acc).1.root = x.root := by
-  obtain ⟨h1, h2, _, h4, h5⟩ := fullNodes_fields (n / X.size) x acc
+theorem readNodes_fields (x : Xof X) (keep : Bool) (n : Nat) (acc : Bytes) :
+    (x.readNodes keep n acc).1.readMode = x.readMode ∧
+    (x.readNodes keep n acc).1.remaining = x.remaining - n ∧
+    (x.readNodes keep n acc).1.length = x.length ∧ (x.readNodes keep n acc).1.root = x.root := by
+  obtain ⟨h1, h2, _, h4, h5⟩ := fullNodes_fields keep (n / X.size) x acc
   have hdm := Nat.div_add_mod n X.size
   rw [Nat.mul_comm] at hdm
   unfold Xof.readNodes
@@ -92,13 +92,13 @@ theorem enterRead_fields (x : Xof X) :
 
 /-- every Read leaves the XOF in read mode, returns EOF exactly when nothing remained, and consumes
     `min(len(p), remaining)` of the remaining budget -/
-theorem read_fields (x : Xof X) (n : Nat) :
-    (x.read n).1.readMode = true ∧
-    ((x.read n).2.2 = true ↔ x.remaining = 0) ∧
-    (x.read n).1.remaining = x.remaining - min n x.remaining ∧
-    (x.read n).1.length = x.length := by
+theorem readG_fields (x : Xof X) (keep : Bool) (n : Nat) :
+    (x.readG keep n).1.readMode = true ∧
+    ((x.readG keep n).2.2 = true ↔ x.remaining = 0) ∧
+    (x.readG keep n).1.remaining = x.remaining - min n x.remaining ∧
+    (x.readG keep n).1.length = x.length := by
   obtain ⟨e1, e2, e3⟩ := enterRead_fields x
-  unfold Xof.read
+  unfold Xof.readG
   simp only []
   by_cases h0 : x.enterRead.remaining = 0
   · rw [if_pos h0]
@@ -113,16 +113,22 @@ theorem read_fields (x : Xof X) (n : Nat) :
         simp [e1, e2, e3, h0']
       · rw [if_neg hn]
         obtain ⟨r1, r2, r3, _⟩ := readNodes_fields
-          { x.enterRead with offset := 0, remaining := x.enterRead.remaining - (X.size - x.enterRead.offset) }
+          { x.enterRead with offset := 0, remaining := x.enterRead.remaining - (X.size - x.enterRead.offset) } keep
           (min n x.enterRead.remaining - (X.size - x.enterRead.offset)) (x.enterRead.block.drop x.enterRead.offset)
         refine ⟨by rw [r1]; exact e1, by simp [h0'], ?_, by rw [r3]; exact e3⟩
         rw [r2]
         simp only [e2] at hn ⊢
         omega
     · rw [if_neg ho]
-      obtain ⟨r1, r2, r3, _⟩ := readNodes_fields x.enterRead (min n x.enterRead.remaining) []
+      obtain ⟨r1, r2, r3, _⟩ := readNodes_fields x.enterRead keep (min n x.enterRead.remaining) []
       refine ⟨by rw [r1]; exact e1, by simp [h0'], ?_, by rw [r3]; exact e3⟩
       rw [r2, e2]
+
+theorem read_fields (x : Xof X) (n : Nat) :
+    (x.read n).1.readMode = true ∧
+    ((x.read n).2.2 = true ↔ x.remaining = 0) ∧
+    (x.read n).1.remaining = x.remaining - min n x.remaining ∧
+    (x.read n).1.length = x.length := readG_fields x true n
 
 /-- Write after the first Read panics -/
 theorem write_after_read_panics (x : Xof X) (n : Nat) (p : Bytes) : ((x.read n).1.write p) = none := by
@@ -144,6 +150,31 @@ theorem readAll_remaining (reads : List Nat) : ∀ (x : Xof X),
 theorem reset_fields (x : Xof X) :
     x.reset.remaining = outLen X x.length ∧ x.reset.readMode = false ∧ x.reset.offset = 0 ∧ x.reset.nodeOffset = 0 := by
   simp [Xof.reset, outLen]
+
+/-- discarding the output (the harness's skip step) leaves exactly the state a normal Read leaves -/
+theorem fullNodes_state (k : Nat) : ∀ (x : Xof X) (keep keep' : Bool) (acc acc' : Bytes),
+    (fullNodes X keep k x acc).1 = (fullNodes X keep' k x acc').1 := by
+  induction k with
+  | zero => intros; rfl
+  | succ k ih => intro x keep keep' acc acc'; simp only [fullNodes]; exact ih _ _ _ _ _
+
+theorem readNodes_state (x : Xof X) (keep keep' : Bool) (n : Nat) (acc acc' : Bytes) :
+    (x.readNodes keep n acc).1 = (x.readNodes keep' n acc').1 := by
+  unfold Xof.readNodes
+  simp only []
+  rw [fullNodes_state (n / X.size) x keep keep' acc acc']
+  split <;> simp [Xof.partialNode]
+
+theorem skip_eq_read_state (x : Xof X) (n : Nat) : x.skip n = (x.read n).1 := by
+  unfold Xof.skip Xof.read Xof.readG
+  simp only []
+  split
+  · rfl
+  · split
+    · split
+      · rfl
+      · exact readNodes_state _ _ _ _ _ _
+    · exact readNodes_state _ _ _ _ _ _
 
 theorem newXOF_ok_iff (size : Nat) (key : Bytes) :
     (∃ x, newXOF X size key = .ok x) ↔ key.length ≤ X.size ∧ size ≠ X.unknown := by
